@@ -724,7 +724,11 @@ func (e *Engine) load(fr *Frame, st *State, pv SV, t types.Type, what string) SV
 	case pkElem:
 		return e.loadRaw(st, p, t)
 	case pkGlobal:
-		return e.loadRaw(st, &PtrSV{Kind: pkHeap, Ref: e.globalRef(p.Glob), Root: p.Root, Path: p.Path}, t)
+		v := e.loadRaw(st, &PtrSV{Kind: pkHeap, Ref: e.globalRef(p.Glob), Root: p.Root, Path: p.Path}, t)
+		if len(p.Path) == 0 {
+			e.assumeGlobalInvOn(p.Glob, v, t, st)
+		}
+		return v
 	}
 	panic(engErr("load: bad pointer kind"))
 }
@@ -1355,6 +1359,15 @@ func (e *Engine) stringToBytes(st *State, el types.Type, s string) SV {
 	}
 	h := e.heapGet(st, name, srt)
 	e.heapSet(st, name, srt, fmt.Sprintf("(store %s %s %s)", h, sl.Base, arr))
+	// content abstraction: the bytes of []byte(s) are (the string) s
+	if sf, ok := e.db.Specs["contentOf"]; ok {
+		func() {
+			defer func() { recover() }()
+			env := &Env{vars: map[string]TV{}, e: e, cur: st}
+			e.declareSpec(env, sf)
+			e.vc.assume("true", fmt.Sprintf("(= (contentOf %s %s %s %s) %s)", sl.Base, sl.Off, sl.Len, sl.Cap, s))
+		}()
+	}
 	return sl
 }
 
